@@ -178,7 +178,8 @@ fn judge_with(pairs: bool) -> impl Fn(&Prog, &mut Ctx) + Sync + Send {
         if let Some(last) = p.lines.last() {
             let d = &last.stmts;
             let text = render_stmts(d);
-            if !text.trim().is_empty() && !has_line_refs(d) && !contains(d, &|s| matches!(s, Stmt::Rem(_))) {
+            // READ / RESTORE in a direct line use the stored program's DATA; DATA is illegal in a direct line
+            if !text.trim().is_empty() && !has_line_refs(d) && !contains(d, &|s| matches!(s, Stmt::Rem(_) | Stmt::Read(_) | Stmt::Restore(_) | Stmt::Data(_))) {
                 let mut stored = p.clone();
                 stored.lines.pop();
                 let direct = vec![text.clone()];
@@ -254,6 +255,7 @@ impl Check for C20 {
                 sweep(2, Level::Full, false),
                 sweep(2, Level::Medium, true),
                 sweep(3, Level::Core, false),
+                sweep(2, Level::Mixed, false),
             ],
             Tier::Thorough => vec![
                 sweep0(2, Level::Full),
@@ -263,14 +265,16 @@ impl Check for C20 {
                 sweep(3, Level::Medium, false),
                 sweep(3, Level::Core, true),
                 sweep(4, Level::Core, false),
+                sweep(2, Level::Mixed, true),
+                sweep(3, Level::Mixed, false),
             ],
         }
     }
     fn meta(&self, tier: Tier) -> Meta {
         Meta {
             bound: match tier {
-                Tier::Quick => "programs of the C01 space: N=1 full alphabet with every pair of layout transformations, N=2 full with every single transformation, N=2 medium with every pair, N=3 core with every single one; transformations: REM / ' / empty filler line at every gap, empty statement at every statement boundary, split of a multi-statement line at every boundary, direct statement over empty / original / larger stored program, direct list vs one-line program".into(),
-                Tier::Thorough => "N<=2 full alphabet with every pair of transformations, N=3 medium single, N=3 core pairs, N=4 core single".into(),
+                Tier::Quick => "programs of the C01 space: N=1 full alphabet with every pair of layout transformations, N=2 full with every single transformation, N=2 medium with every pair, N=3 core with every single one, N=2 over the mixed alphabet (DATA/READ/RESTORE, DEF FN, arrays, strings, SWAP, CLEAR, ERASE, INPUT) with every single one; transformations: REM / ' / empty filler line at every gap, empty statement at every statement boundary, split of a multi-statement line at every boundary, direct statement over empty / original / larger stored program, direct list vs one-line program".into(),
+                Tier::Thorough => "N<=2 full alphabet with every pair of transformations, N=3 medium single, N=3 core pairs, N=4 core single, N=2 mixed pairs, N=3 mixed single".into(),
             },
             rule: "a case is (program, transformation or pair); distinct_nontrivial = distinct (transformation kind, baseline transcript) pairs".into(),
             states_note: "differential: both sides are implementation traces; transitions = cases".into(),
